@@ -621,7 +621,10 @@ def _seed():
 
 @st.composite
 def _audio_arrays(draw, cont):
-    n = draw(st.one_of(st.integers(0, 12), st.integers(0, 400)))
+    # mostly short; one case in ~12 is long enough to span several internal read blocks of any reader
+    n = draw(st.one_of(st.integers(0, 12), st.integers(0, 400), st.integers(0, 400), st.integers(0, 12), st.integers(0, 400),
+                       st.integers(0, 400), st.integers(0, 12), st.integers(0, 400), st.integers(0, 400), st.integers(0, 12),
+                       st.integers(0, 400), st.sampled_from([16385, 32769, 65537, 70001, 131073])))
     if cont in ("flac", "sph"):
         n = max(n, 1)
     c = draw(st.sampled_from([1, 2, 2, 3, 4]))
